@@ -602,6 +602,7 @@ def run(ctx, led):
     from . import fznrules
     run_rule(led, "F9", "Domain::merge is the intersection of the two domains (decided per variant pair on a small window)", fznrules.merge_is_intersection, ctx)
     run_rule(led, "F10", "the clauses posted for set_in_reif over an interval mean r ⇔ lb ≤ x ≤ ub (decided on a small window)", fznrules.set_in_reif_clauses, ctx)
+    run_rule(led, "F18", "every clause of set_in_reif is posted inside an arm of the match on the set's representation", fznrules.set_in_reif_every_path, ctx)
     run_rule(led, "F11", "ZIP-ALIGNMENT: nothing is selected from one side before two parallel sequences are zipped", fznrules.zip_alignment, ctx)
     from . import C09 as _C09
     run_rule(led, "F12", "LINFORM: the arithmetic constraint builders mean what they say (shared with C09-R10)", _C09.r10, ctx)
